@@ -261,6 +261,8 @@ def scenario(k: Kernel, plan, obs):
             return 50_000 + (k.current.proc or 0)
 
     st.os = OsShim()
+    from sim.prims import install_forkable_mmap
+    install_forkable_mmap()     # a variant of the storage that memory-maps its files can still be forked
     from sim.prims import install_threading_shims
     from sim.kernel import patch_threading
     patch_threading(k)      # a thread the code under test may start becomes a task of the kernel
